@@ -327,6 +327,16 @@ func (c *Config) UnmarshalYAML(unmarshal func(any) error) error {
 		*c.Global = DefaultGlobalConfig()
 	}
 
+	// An explicit null (e.g. an empty "http_config:" key) removes the defaults
+	// that the receiver sections below rely on; restore them.
+	if c.Global.HTTPConfig == nil {
+		httpConfig := commoncfg.DefaultHTTPClientConfig
+		c.Global.HTTPConfig = &httpConfig
+	}
+	if c.Global.SMTPTLSConfig == nil {
+		c.Global.SMTPTLSConfig = &commoncfg.TLSConfig{}
+	}
+
 	if c.Global.SlackAppToken != "" && len(c.Global.SlackAppTokenFile) > 0 {
 		return errors.New("at most one of slack_app_token & slack_app_token_file must be configured")
 	}
